@@ -38,6 +38,7 @@ CONSTANTS Keys,         \* storable keys (description keys)
           MaxStack,     \* bound on the evaluation stack (re-entrancy is flagged before)
           EmitCov,      \* BOOLEAN: print the shortest history reaching each (key, leaf)
           AllowFreeze,  \* BOOLEAN: the user may call freeze_data() between requests
+          Functions,    \* tokens "item:<name>": rel["<name>"] for a method that takes arguments returns the method itself
           LoadKeys      \* keys of the dictionary the user may hand to load_data() between requests ({}: load_data is not called)
 
 VARIABLES data,     \* set of cached keys                     (keys of rel.data)
@@ -89,6 +90,12 @@ Request(k) ==
             /\ UNCHANGED <<data, count, frozen, stack, obj, dirty>>
        ELSE /\ stack' = <<Frame(k)>>
             /\ UNCHANGED <<data, age, count, frozen, obj, dirty, handed>>
+
+(* rel["s_covd"], rel["Lie_beta"], ...: the item interface hands back the bound method; nothing is computed, stored or aged *)
+RequestFunction(f) ==
+    /\ stack = << >> /\ nreq < MaxRequests /\ f \in Functions
+    /\ nreq' = nreq + 1 /\ hist' = Append(hist, f) /\ status' = "ok"
+    /\ UNCHANGED <<data, age, count, frozen, stack, obj, dirty, handed, nset>>
 
 (* rel.data[k] = v by the user between requests: a new object the user holds; the age table is not touched, *)
 (* an importance of 0 set earlier for k stays (freeze_data marks keys, not objects)                        *)
@@ -201,7 +208,7 @@ Return == /\ stack # << >> /\ Node(Top).op = "end"
           /\ \E S \in Choices(Touch(age, Top.key, count + 1), count + 1) : ReturnWith(S, S)
 
 Step == StepRead \/ StepDirect \/ StepTest
-Next == (\E k \in Requests : Request(k)) \/ Freeze \/ Load \/ Step \/ Return \/ ReturnHelper \/ Raise
+Next == (\E k \in Requests : Request(k)) \/ (\E f \in Functions : RequestFunction(f)) \/ Freeze \/ Load \/ Step \/ Return \/ ReturnHelper \/ Raise
 Spec == Init /\ [][Next]_vars
 FairSpec == Spec /\ WF_vars(Step \/ Return \/ ReturnHelper \/ Raise)
 
